@@ -43,7 +43,7 @@ class MarkovChainMonteCarloRewiring(MarkovChainMonteCarlo):
                 self._convergence_limit: int = params[ToolsNames.CONVERGENCE_LIMIT]
             else:
                 # set a limit for the number of swaps before termination
-                self._convergence_limit = 10 * self._network.G.edges()
+                self._convergence_limit = 10 * self._network.G.number_of_edges()
             if ToolsNames.SEARCH_LIMIT in params:
                 self._search_limit: int = params[ToolsNames.SEARCH_LIMIT]
         except Exception as e:
